@@ -20,7 +20,7 @@ def main():
     sid = os.path.basename(seed_dir.rstrip("/"))
     wt = f"/tmp/seedwt-{sid}-{os.getpid()}"
     scratch = tempfile.mkdtemp(prefix="seedev-")
-    res = {"seed": sid, "tier": tier, "checks": {}}
+    res = {"seed": sid, "tier": tier, "repo_head": sh("git -C /repo rev-parse --short HEAD").stdout.strip(), "checks": {}}
     try:
         r = sh(f"git -C /repo worktree add -q --detach {wt} HEAD")
         assert r.returncode == 0, r.stderr
@@ -29,7 +29,7 @@ def main():
             import re
 
             src = open(os.path.join(seed_dir, demo0)).read()
-            open(os.path.join(wt, "demo_seed.py"), "w").write(re.sub(r"/tmp/wt-C\d+\w*", wt, src))
+            open(os.path.join(wt, "demo_seed.py"), "w").write(re.sub(r"/tmp/(?:wt|w2|w3)-C\d+\w*", wt, src))
             r = sh(f"cd {wt} && /venv/bin/python demo_seed.py")
             res["demo_exit_without_change"] = r.returncode
         r = sh(f"git -C {wt} apply {seed_dir}/patch.diff")
@@ -43,7 +43,7 @@ def main():
             import re
 
             src = open(os.path.join(wt, "demo_seed.py")).read()
-            open(os.path.join(wt, "demo_seed.py"), "w").write(re.sub(r"/tmp/wt-C\d+\w*", wt, src))
+            open(os.path.join(wt, "demo_seed.py"), "w").write(re.sub(r"/tmp/(?:wt|w2|w3)-C\d+\w*", wt, src))
             r = sh(f"cd {wt} && /venv/bin/python demo_seed.py", env=dict(os.environ, SEED_WT=wt))
             res["demo_exit_with_change"] = r.returncode
         for c in checks:
